@@ -118,7 +118,7 @@ class Cut:
         return self.inner(*a, **k)
 
 
-def run_step(ctx, cfg, tag="", cuts=True, stub_poisson=False, init=None, trivial_fft=False, U=None, scalar_tag=None, step=True):
+def run_step(ctx, cfg, tag="", cuts=True, stub_poisson=False, init=None, trivial_fft=False, U=None, scalar_tag=None, step=True, cut_tag=None):
     """returns dict with sim, initial state copies, cut records and scalars"""
     sim = build_sim(ctx, cfg)
     classified = symbolise_sim(ctx, sim, tag, trivial_fft=trivial_fft)
@@ -150,13 +150,14 @@ def run_step(ctx, cfg, tag="", cuts=True, stub_poisson=False, init=None, trivial
 
         sim._unbounded_poisson_solver.vector_field_solve = fake2
         sim._unbounded_poisson_solver.solve = fake2
+    ctag = tag if cut_tag is None else cut_tag
     if cfg["kind"] != "passive" and cuts:
-        out["cut_pen"] = Cut(ctx, sim, "_penalise_field_towards_boundary", "field" if dim == 2 else "vector_field", tag + "cutw")
+        out["cut_pen"] = Cut(ctx, sim, "_penalise_field_towards_boundary", "field" if dim == 2 else "vector_field", ctag + "cutw")
         ps = sim._unbounded_poisson_solver
         if dim == 2:
-            out["cut_psi"] = Cut(ctx, sim, "_curl", "field", tag + "cutpsi")
+            out["cut_psi"] = Cut(ctx, sim, "_curl", "field", ctag + "cutpsi")
         else:
-            out["cut_psi"] = Cut(ctx, sim, "_curl", "field", tag + "cutpsi")
+            out["cut_psi"] = Cut(ctx, sim, "_curl", "field", ctag + "cutpsi")
         if stub_poisson:
             # Poisson stage cut out entirely (wide-zone 3-D configurations): the solve writes fresh variables
             def fake(solution_vector_field=None, rhs_vector_field=None, solution_field=None, rhs_field=None):
